@@ -4,7 +4,7 @@
 (* real code against Automata.tla and GrammarCompose.tla (C09 - C13, C17). *)
 (* Same batch pattern as TraceGrammar.tla.                                 *)
 (***************************************************************************)
-EXTENDS GrammarCompose, Json, IOUtils
+EXTENDS GrammarCompose, DetCore, Json, IOUtils
 
 Trace == ndJsonDeserialize(IOEnv.TRACE_FILE)
 NSh == 16
@@ -40,6 +40,20 @@ PostA(sr, M, name) ==
     [] name = "trimmed" -> TrimmedA(sr, M)
     [] name = "stochastic" -> Stochastic(sr, M)
 FailedPostsA(e) == {e.posts[i] : i \in {i \in DOMAIN e.posts : ~PostA(e.sr, e.out, e.posts[i])}}
+
+(* structure conformance with Determinize.tla: the code determinises the epsilon-free, weight-pushed form of its     *)
+(* input, which the harness records (`pushed`; epsremove and push are judged on their own); the result must have      *)
+(* exactly as many states as the closure of weighted subsets of that machine.  Not judged when the closure exceeds   *)
+(* 8 subsets or when the pushed weights were computed in floating point.                                             *)
+AllUsed(sr, M) == UsedStates(sr, M) \cup {M.I[i][1] : i \in {i \in DOMAIN M.I : M.I[i][2] # Zero(sr)}}
+                                    \cup {M.F[i][1] : i \in {i \in DOMAIN M.F : M.F[i][2] # Zero(sr)}}
+ExactM(M) == /\ \A i \in DOMAIN M.I : Len(M.I[i][2]) = 2
+             /\ \A i \in DOMAIN M.F : Len(M.F[i][2]) = 2
+             /\ \A r \in DOMAIN M.arcs : Len(M.arcs[r][4]) = 2
+DetSizeOK(e) ==
+  (e.sr = "Rat" /\ Has(e, "pushed") /\ ExactM(e.pushed) /\ NoEpsArcs(e.pushed))
+  => LET S == DetSubsets(e.pushed, 8)
+     IN Cardinality(S) > 8 \/ Cardinality(AllUsed(e.sr, e.out)) = Cardinality(S)
 
 (* the language of M up to L is exactly the listed entries *)
 LangOK(e) ==
@@ -160,7 +174,7 @@ Failed(e) ==
   CASE e.op = "wcall" -> IF CallOK(e) THEN {} ELSE {"pathsum"}
     [] e.op = "wtotal" -> IF TotalOK(e) THEN {} ELSE {"total"}
     [] e.op = "wop" -> (IF OpWeightsOK(e) THEN {} ELSE {IF e.fn = "threshold" THEN "threshold-conformance" ELSE "language"})
-                       \cup FailedPostsA(e)
+                       \cup FailedPostsA(e) \cup (IF DetSizeOK(e) THEN {} ELSE {"detsize-conformance"})
     [] e.op = "wlang" -> IF LangOK(e) THEN {} ELSE {"language"}
     [] e.op = "tocfg" -> IF ToCfgOK(e) THEN {} ELSE {"tocfg"}
     [] e.op = "tobytes" -> IF ToBytesOK(e) THEN {} ELSE {"bytes"}
